@@ -653,6 +653,265 @@ Proof.
   - destruct (healed m tm r); [discriminate|exact (IH Hn Hl)].
 Qed.
 
+(* ------------------------- type cells and interface lists under healing *)
+Section TypeCells.
+Variable tm : list (str * oid).
+
+(* every existing type object is verbatim what it was *)
+Definition tkeep (m m' : mem) : Prop :=
+  forall o n k d ms ifs r ds, mget m o = Some (OType n k d ms ifs r ds) -> mget m' o = Some (OType n k d ms ifs r ds).
+Lemma tkeep_refl m : tkeep m m.
+Proof. intros o n k d ms ifs r ds H. exact H. Qed.
+Lemma tkeep_trans a b c : tkeep a b -> tkeep b c -> tkeep a c.
+Proof. intros H1 H2 o n k d ms ifs r ds H. apply H2. apply H1. exact H. Qed.
+Lemma tkeep_alloc m v : fresh_ok m -> tkeep m (fst (alloc m v)).
+Proof. intros Hf o n k d ms ifs r ds H. apply (alloc_pres m v Hf). exact H. Qed.
+
+Lemma heal_member_tkeep m x m' r : heal_member tm m x = Some (m', r) -> tkeep m m'.
+Proof.
+  intros H. unfold heal_member in H. destruct (mget m x) as [v|] eqn:Hv; [|discriminate].
+  destruct v as [|n py ty args d dp rs sb ds|a n py ty df d ds| |]; try discriminate.
+  - destruct (healed m tm ty); inversion H; subst; [|apply tkeep_refl].
+    intros o n1 k1 d1 ms1 ifs1 r1 ds1 Ho. rewrite mget_write. destruct (N.eqb_spec o x) as [->|]; [congruence|exact Ho].
+  - destruct (healed m tm ty); inversion H; subst; [|apply tkeep_refl].
+    intros o n1 k1 d1 ms1 ifs1 r1 ds1 Ho. rewrite mget_write. destruct (N.eqb_spec o x) as [->|]; [congruence|exact Ho].
+Qed.
+
+Lemma heal_arg_tk m x m' r :
+  inv tm m -> True -> visit_arg (heal_visitor tm) m x = Some (m', r) -> inv tm m' /\ tkeep m m' /\ (forall y, r = Some y -> True).
+Proof.
+  intros Hi _ H. rewrite visit_arg_heal in H. destruct (heal_member_spec tm _ _ _ _ Hi H) as (Hi' & _).
+  split; [assumption|]. split; [eapply heal_member_tkeep; eauto|auto].
+Qed.
+Lemma heal_inf_tk m x m' r :
+  inv tm m -> True -> visit_inf (heal_visitor tm) m x = Some (m', r) -> inv tm m' /\ tkeep m m' /\ (forall y, r = Some y -> True).
+Proof.
+  intros Hi _ H. rewrite visit_inf_heal in H. destruct (heal_member_spec tm _ _ _ _ Hi H) as (Hi' & _).
+  split; [assumption|]. split; [eapply heal_member_tkeep; eauto|auto].
+Qed.
+Lemma heal_env_tk m x m' r :
+  inv tm m -> True -> visit_env (heal_visitor tm) m x = Some (m', r) -> inv tm m' /\ tkeep m m' /\ (forall y, r = Some y -> True).
+Proof.
+  intros Hi _ H. unfold visit_env, hseq, heal_visitor, hid in H; simpl in H. inversion H; subst.
+  split; [assumption|]. split; [apply tkeep_refl|auto].
+Qed.
+
+Lemma heal_field_tk m f m' r :
+  inv tm m -> True -> visit_field (heal_visitor tm) m f = Some (m', r) -> inv tm m' /\ tkeep m m' /\ (forall y, r = Some y -> True).
+Proof.
+  intros Hi _ H. destruct (heal_field_hook tm _ _ _ _ Hi H) as (Hi' & _). split; [assumption|]. split; [|auto].
+  change (visit_field (heal_visitor tm) m f)
+    with (match base_field (heal_visitor tm) m f with
+          | None => None
+          | Some (m2, None) => Some (m2, None)
+          | Some (m2, Some o2) => heal_member tm m2 o2
+          end) in H.
+  unfold base_field in H. destruct (mget m f) as [v|] eqn:Hv; [|discriminate].
+  destruct v as [|n py ty args d dp rs sb ds| | |]; try discriminate.
+  destruct (map_filter (visit_arg (heal_visitor tm)) m args) as [[m1 args']|] eqn:Hmf; [|discriminate].
+  destruct (map_filter_pre (inv tm) tkeep tkeep_refl tkeep_trans _ (fun _ _ => True) (fun _ _ => True)
+              heal_arg_tk (fun _ _ _ _ _ => I) (fun _ _ _ _ _ => I) _ _ _ _ Hi (Forall_triv' args) Hmf) as (Hi1 & K1 & _).
+  destruct (oids_eqb args' args).
+  - eapply tkeep_trans; [exact K1|]. eapply heal_member_tkeep; eauto.
+  - destruct (mget m1 f) as [[|n1 py1 ty1 a1 d1 dp1 rs1 sb1 ds1| | |]|]; try discriminate.
+    pose proof (tkeep_alloc m1 (OField n1 py1 ty1 args' d1 dp1 rs1 sb1 ds1) (proj1 Hi1)) as K2.
+    unfold alloc in H, K2. simpl in K2.
+    eapply tkeep_trans; [exact K1|]. eapply tkeep_trans; [exact K2|]. eapply heal_member_tkeep; eauto.
+Qed.
+
+Lemma base_type_tk m t m2 ro : inv tm m -> base_type (heal_visitor tm) m t = Some (m2, ro) -> tkeep m m2.
+Proof.
+  intros Hi H. unfold base_type in H. destruct (mget m t) as [[n k d ms ifs rs ds| | | |]|] eqn:Hg; try discriminate.
+  assert (Hgen : forall h : hook,
+    (forall m x m' r, inv tm m -> True -> h m x = Some (m', r) -> inv tm m' /\ tkeep m m' /\ (forall y, r = Some y -> True)) ->
+    match map_filter h m ms with
+    | None => None
+    | Some (m1, members') =>
+        if oids_eqb members' ms then Some (m1, Some t)
+        else match mget m1 t with
+             | Some (OType n1 k1 d1 _ ifaces r1 ds1) =>
+                 let (m3, t') := alloc m1 (OType n1 k1 d1 members' ifaces r1 ds1) in Some (m3, Some t')
+             | _ => None
+             end
+    end = Some (m2, ro) -> tkeep m m2).
+  { intros h Hh H0. destruct (map_filter h m ms) as [[m1 ms']|] eqn:Hmf; [|discriminate].
+    destruct (map_filter_pre (inv tm) tkeep tkeep_refl tkeep_trans _ (fun _ _ => True) (fun _ _ => True)
+                Hh (fun _ _ _ _ _ => I) (fun _ _ _ _ _ => I) _ _ _ _ Hi (Forall_triv' ms) Hmf) as (Hi1 & K1 & _).
+    destruct (oids_eqb ms' ms); [inversion H0; subst; exact K1|].
+    destruct (mget m1 t) as [[n1 k1 d1 ms1 ifs1 r1 ds1| | | |]|]; try discriminate.
+    pose proof (tkeep_alloc m1 (OType n1 k1 d1 ms' ifs1 r1 ds1) (proj1 Hi1)) as K2. unfold alloc in H0, K2. simpl in K2.
+    inversion H0; subst. eapply tkeep_trans; eauto. }
+  destruct k; try (inversion H; subst; apply tkeep_refl).
+  - apply (Hgen _ heal_field_tk H).
+  - apply (Hgen _ heal_field_tk H).
+  - apply (Hgen _ heal_env_tk H).
+  - apply (Hgen _ heal_inf_tk H).
+Qed.
+
+(* the interface / union-member list of a type object, relative to the list
+   L it started from: for object and union types (whose list is healed) the
+   same names in the same order, every one resolvable; otherwise untouched *)
+Definition ires (m : mem) (ifs : list oid) : Prop :=
+  Forall (fun i => exists nm, tname m i = Some nm /\ alookup nm tm <> None) ifs.
+Definition IK (m : mem) (o : oid) (L : list oid) : Prop :=
+  exists n k d ms ifs r ds, mget m o = Some (OType n k d ms ifs r ds) /\
+    match k with Kobject | Kunion => Forall2 (same_name m) L ifs /\ ires m ifs | _ => ifs = L end.
+
+Lemma F2_same_trans m : forall a b c, Forall2 (same_name m) a b -> Forall2 (same_name m) b c -> Forall2 (same_name m) a c.
+Proof.
+  intros a b c H. revert c. induction H as [|x y a b Hxy Hab IH]; intros c Hc; inversion Hc; subst; constructor.
+  - eapply same_name_trans; eauto.
+  - apply IH. assumption.
+Qed.
+
+Lemma heal_oids_full m ifs :
+  lookup_ok m tm -> ires m ifs -> Forall2 (same_name m) ifs (heal_oids m tm ifs) /\ ires m (heal_oids m tm ifs).
+Proof.
+  intros Hl. induction 1 as [|i ifs (nm & Hn & Ha) Hr IH]; simpl; [split; constructor|].
+  unfold healed_oid. rewrite Hn. destruct (alookup nm tm) as [i'|] eqn:E; [|congruence]. simpl.
+  destruct IH as (A & B). split; constructor; auto.
+  - exists nm. split; [assumption|apply Hl; assumption].
+  - exists nm. split; [apply Hl; assumption|congruence].
+Qed.
+
+Lemma IK_step m m' o L :
+  (forall a n, tname m a = Some n -> tname m' a = Some n) ->
+  (forall v, mget m o = Some v -> mget m' o = Some v) -> IK m o L -> IK m' o L.
+Proof.
+  intros Hn Hc (n & k & d & ms & ifs & r & ds & Hg & Hk). exists n, k, d, ms, ifs, r, ds. split; [apply Hc; exact Hg|].
+  assert (Hs : forall a b, same_name m a b -> same_name m' a b) by (intros a b (nm & A & B); exists nm; split; apply Hn; assumption).
+  assert (Hi : ires m ifs -> ires m' ifs).
+  { apply Forall_impl. intros i (nm & A & B). exists nm. split; [apply Hn; assumption|assumption]. }
+  destruct k; auto; destruct Hk as [A B]; (split; [eapply Forall2_impl; [|exact A]; exact Hs|exact (Hi B)]).
+Qed.
+
+Lemma visit_type_IK m t m' r :
+  inv tm m -> visit_type (heal_visitor tm) m t = Some (m', r) -> forall o L, IK m o L -> IK m' o L.
+Proof.
+  intros Hi H o L Hik.
+  change (visit_type (heal_visitor tm) m t)
+    with (match base_type (heal_visitor tm) m t with
+          | None => None
+          | Some (m2, None) => Some (m2, None)
+          | Some (m2, Some o2) => heal_type tm m2 o2
+          end) in H.
+  destruct (base_type (heal_visitor tm) m t) as [[m2 ro]|] eqn:Hb; [|discriminate].
+  destruct (base_type_spec tm _ _ _ _ Hi Hb) as (Hi2 & He2 & y & n2 & k2 & d2 & ms2 & ifs2 & rs2 & ds2 & -> & Hg2 & _ & _ & _).
+  pose proof (base_type_tk _ _ _ _ Hi Hb) as K2.
+  assert (Hik2 : IK m2 o L).
+  { eapply IK_step; [intros a n; apply (ext_tname tm); exact He2| |exact Hik].
+    intros v Hv. destruct Hik as (n & k & d & ms & ifs & r0 & ds & Hg & _). rewrite Hg in Hv. inversion Hv; subst. apply K2. exact Hg. }
+  unfold heal_type in H. rewrite Hg2 in H.
+  assert (Hsame : Some (m2, Some y) = Some (m', r) -> IK m' o L) by (intros E; inversion E; subst; exact Hik2).
+  assert (Hwr : Some (write m2 y (OType n2 k2 d2 ms2 (heal_oids m2 tm ifs2) rs2 ds2), Some y) = Some (m', r) ->
+            (k2 = Kobject \/ k2 = Kunion) -> IK m' o L).
+  { intros E Hk. inversion E; subst m' r. clear E.
+    set (v' := OType n2 k2 d2 ms2 (heal_oids m2 tm ifs2) rs2 ds2).
+    assert (Hn : forall a n, tname m2 a = Some n -> tname (write m2 y v') a = Some n).
+    { intros a n Ha. eapply tname_write; [exact Hg2|reflexivity|exact Ha]. }
+    destruct (N.eq_dec o y) as [->|Hne].
+    - destruct Hik2 as (n & k & d & ms & ifs & r0 & ds & Hg & Hkk). rewrite Hg2 in Hg. inversion Hg; subst n k d ms ifs r0 ds.
+      exists n2, k2, d2, ms2, (heal_oids m2 tm ifs2), rs2, ds2. split; [rewrite mget_write, N.eqb_refl; reflexivity|].
+      assert (Hkk' : Forall2 (same_name m2) L ifs2 /\ ires m2 ifs2) by (destruct Hk as [-> | ->]; exact Hkk).
+      destruct Hkk' as (A & B). destruct (heal_oids_full m2 ifs2 (proj2 Hi2) B) as (C & D).
+      assert (Hres : Forall2 (same_name (write m2 y v')) L (heal_oids m2 tm ifs2) /\ ires (write m2 y v') (heal_oids m2 tm ifs2)).
+      { split.
+        - eapply Forall2_impl; [|exact (F2_same_trans _ _ _ _ A C)]. intros a b (nm & P & Q). exists nm. split; apply Hn; assumption.
+        - eapply Forall_impl; [|exact D]. intros i (nm & P & Q). exists nm. split; [apply Hn; assumption|assumption]. }
+      destruct Hk as [-> | ->]; exact Hres.
+    - eapply IK_step; [exact Hn| |exact Hik2]. intros v Hv. rewrite mget_write. destruct (N.eqb_spec o y); [contradiction|exact Hv]. }
+  destruct k2; first [exact (Hsame H)|apply (Hwr H); auto].
+Qed.
+
+Lemma traverse_types_IK : forall l m m' ups,
+  inv tm m -> traverse_list (visit_type (heal_visitor tm)) is_builtin m l = Some (m', ups) ->
+  forall o L, IK m o L -> IK m' o L.
+Proof.
+  induction l as [|[n0 o0] l IH]; intros m m' ups Hi H o L Hik; simpl in H.
+  - inversion H; subst. exact Hik.
+  - destruct (is_builtin o0); [exact (IH _ _ _ Hi H o L Hik)|].
+    destruct (visit_type (heal_visitor tm) m o0) as [[m1 r]|] eqn:Hv; [|discriminate].
+    destruct (traverse_list (visit_type (heal_visitor tm)) is_builtin m1 l) as [[m2 ups']|] eqn:Ht; [|discriminate].
+    inversion H; subst. destruct (heal_type_hook tm _ _ _ _ Hi Hv) as (Hi1 & _).
+    apply (IH _ _ _ Hi1 Ht o L). exact (visit_type_IK _ _ _ _ Hi Hv o L Hik).
+Qed.
+
+Lemma visit_dir_tk m d m' r : inv tm m -> visit_dir (heal_visitor tm) m d = Some (m', r) -> tkeep m m'.
+Proof.
+  intros Hi H.
+  change (visit_dir (heal_visitor tm) m d)
+    with (match base_dir (heal_visitor tm) m d with
+          | None => None
+          | Some (m2, None) => Some (m2, None)
+          | Some (m2, Some o2) => Some (m2, Some o2)
+          end) in H.
+  unfold base_dir in H. destruct (mget m d) as [v|] eqn:Hg; [|discriminate].
+  destruct v as [| | | |n ds locs args]; try discriminate.
+  destruct (map_filter (visit_arg (heal_visitor tm)) m args) as [[m1 args']|] eqn:Hmf; [|discriminate].
+  destruct (map_filter_pre (inv tm) tkeep tkeep_refl tkeep_trans _ (fun _ _ => True) (fun _ _ => True)
+              heal_arg_tk (fun _ _ _ _ _ => I) (fun _ _ _ _ _ => I) _ _ _ _ Hi (Forall_triv' args) Hmf) as (Hi1 & K1 & _).
+  destruct (oids_eqb args' args); [inversion H; subst; exact K1|].
+  destruct (mget m1 d) as [[| | | |n1 ds1 locs1 a1]|]; try discriminate.
+  pose proof (tkeep_alloc m1 (ODir n1 ds1 locs1 args') (proj1 Hi1)) as K2. unfold alloc in H, K2. simpl in K2.
+  inversion H; subst. eapply tkeep_trans; eauto.
+Qed.
+
+Lemma traverse_dirs_IK : forall l m m' ups,
+  inv tm m -> traverse_list (visit_dir (heal_visitor tm)) (fun _ => false) m l = Some (m', ups) ->
+  forall o L, IK m o L -> IK m' o L.
+Proof.
+  induction l as [|[n0 d0] l IH]; intros m m' ups Hi H o L Hik; simpl in H.
+  - inversion H; subst. exact Hik.
+  - destruct (visit_dir (heal_visitor tm) m d0) as [[m1 r]|] eqn:Hv; [|discriminate].
+    destruct (traverse_list (visit_dir (heal_visitor tm)) (fun _ => false) m1 l) as [[m2 ups']|] eqn:Ht; [|discriminate].
+    inversion H; subst. destruct (heal_dir_hook tm _ _ _ _ Hi Hv) as (Hi1 & He1 & _).
+    apply (IH _ _ _ Hi1 Ht o L). eapply IK_step; [intros a n; apply (ext_tname tm); exact He1| |exact Hik].
+    intros v Hg. destruct Hik as (n & k & d & ms & ifs & r0 & ds & Hg0 & _). rewrite Hg0 in Hg. inversion Hg; subst.
+    apply (visit_dir_tk _ _ _ _ Hi Hv). exact Hg0.
+Qed.
+
+(* directives whose arguments can be re-resolved are returned as they are *)
+Definition dres (m : mem) (d : oid) : Prop :=
+  match mget m d with Some (ODir _ _ _ args) => Forall (resm tm m) args | _ => False end.
+Lemma dres_ext m m' d : ext tm m m' -> dres m d -> dres m' d.
+Proof.
+  intros He H. unfold dres in *. destruct (mget m d) as [v|] eqn:Hg; [|contradiction].
+  destruct (proj2 He d v Hg) as (v' & Hg' & Hr). rewrite Hg'.
+  destruct v; try contradiction. destruct v'; simpl in Hr; try contradiction. inversion Hr; subst.
+  eapply Forall_impl; [|exact H]. intros a. apply resm_ext. exact He.
+Qed.
+Lemma dir_nodrop m d m' r :
+  inv tm m -> dres m d -> visit_dir (heal_visitor tm) m d = Some (m', r) -> r = Some d.
+Proof.
+  intros Hi Hd H.
+  change (visit_dir (heal_visitor tm) m d)
+    with (match base_dir (heal_visitor tm) m d with
+          | None => None
+          | Some (m2, None) => Some (m2, None)
+          | Some (m2, Some o2) => Some (m2, Some o2)
+          end) in H.
+  unfold base_dir in H. unfold dres in Hd. destruct (mget m d) as [v|] eqn:Hg; [|contradiction].
+  destruct v as [| | | |n ds locs args]; try contradiction.
+  destruct (map_filter (visit_arg (heal_visitor tm)) m args) as [[m1 args']|] eqn:Hmf; [|discriminate].
+  destruct (map_filter_same tm _ (resm tm) (arg_nodrop tm) (resm_ext tm) _ _ _ _ Hi Hd Hmf) as (-> & _ & _).
+  rewrite oids_eqb_refl in H. inversion H; reflexivity.
+Qed.
+Lemma traverse_dirs_nodrop : forall l m m' ups,
+  inv tm m -> (forall n d, In (n, d) l -> dres m d) ->
+  traverse_list (visit_dir (heal_visitor tm)) (fun _ => false) m l = Some (m', ups) -> ups = [].
+Proof.
+  induction l as [|[n d] l IH]; intros m m' ups Hi Hl H; simpl in H.
+  - inversion H; reflexivity.
+  - destruct (visit_dir (heal_visitor tm) m d) as [[m1 r]|] eqn:Hv; [|discriminate].
+    destruct (traverse_list (visit_dir (heal_visitor tm)) (fun _ => false) m1 l) as [[m2 ups']|] eqn:Ht; [|discriminate].
+    inversion H; subst. rewrite (dir_nodrop _ _ _ _ Hi (Hl n d (or_introl eq_refl)) Hv) in *.
+    destruct (heal_dir_hook tm _ _ _ _ Hi Hv) as (Hi1 & He1 & _).
+    simpl. rewrite N.eqb_refl. eapply IH; [exact Hi1| |exact Ht].
+    intros n1 d1 Hin. eapply dres_ext; [exact He1|]. apply (Hl n1 d1). right; assumption.
+Qed.
+
+End TypeCells.
+
 Lemma heal_from_nodrop tm0 : forall fuel m s m' s',
   tm0 = s_types s -> fresh_ok m -> wf_reg m tm0 ->
   (forall n o, In (n, o) tm0 -> is_builtin o = false -> tres tm0 m o) ->
@@ -669,6 +928,48 @@ Proof.
   rewrite replace_and_heal_S in H. simpl in H.
   destruct (replace_dirs du (s_dirs s)) as [dm| | |]; simpl in H; try discriminate.
   inversion H; subst. simpl. split; [reflexivity|]. split; [eapply ext_trans; eauto|exact (proj1 Hi2)].
+Qed.
+
+Lemma heal_from_nodrop_IK tm0 : forall fuel m s m' s',
+  tm0 = s_types s -> fresh_ok m -> wf_reg m tm0 ->
+  (forall n o, In (n, o) tm0 -> is_builtin o = false -> tres tm0 m o) ->
+  heal_from fuel m s = Ok (m', s') -> forall o L, IK tm0 m o L -> IK tm0 m' o L.
+Proof.
+  intros fuel m s m' s' -> Hf Hwf Hres H. unfold heal_from, traverse in H.
+  destruct (traverse_list (visit_type (heal_visitor (s_types s))) is_builtin m (s_types s)) as [[m1 tu]|] eqn:Ht; [|discriminate].
+  destruct (traverse_list (visit_dir (heal_visitor (s_types s))) (fun _ => false) m1 (s_dirs s)) as [[m2 du]|] eqn:Hd; [|discriminate].
+  assert (Hi : inv (s_types s) m) by (split; [assumption|apply wf_reg_lookup; assumption]).
+  pose proof (traverse_nodrop _ _ _ _ _ Hi Hres Ht) as ->.
+  destruct (traverse_types_spec _ _ _ _ _ Hi Ht) as (Hi1 & He1 & _ & _).
+  destruct fuel as [|fuel]; [simpl in H; discriminate|].
+  rewrite replace_and_heal_S in H. simpl in H.
+  destruct (replace_dirs du (s_dirs s)) as [dm| | |]; simpl in H; try discriminate.
+  inversion H; subst.
+  intros o L Hik. eapply traverse_dirs_IK; [exact Hi1|exact Hd|]. eapply traverse_types_IK; [exact Hi|exact Ht|exact Hik].
+Qed.
+
+Lemma heal_from_nodrop_full tm0 : forall fuel m s m' s',
+  tm0 = s_types s -> fresh_ok m -> wf_reg m tm0 ->
+  (forall n o, In (n, o) tm0 -> is_builtin o = false -> tres tm0 m o) ->
+  (forall n d, In (n, d) (s_dirs s) -> dres tm0 m d) ->
+  heal_from fuel m s = Ok (m', s') ->
+  s_types s' = tm0 /\ s_dirs s' = s_dirs s /\ ext tm0 m m' /\ fresh_ok m' /\
+  forall o L, IK tm0 m o L -> IK tm0 m' o L.
+Proof.
+  intros fuel m s m' s' -> Hf Hwf Hres Hdres H. unfold heal_from, traverse in H.
+  destruct (traverse_list (visit_type (heal_visitor (s_types s))) is_builtin m (s_types s)) as [[m1 tu]|] eqn:Ht; [|discriminate].
+  destruct (traverse_list (visit_dir (heal_visitor (s_types s))) (fun _ => false) m1 (s_dirs s)) as [[m2 du]|] eqn:Hd; [|discriminate].
+  assert (Hi : inv (s_types s) m) by (split; [assumption|apply wf_reg_lookup; assumption]).
+  pose proof (traverse_nodrop _ _ _ _ _ Hi Hres Ht) as ->.
+  destruct (traverse_types_spec _ _ _ _ _ Hi Ht) as (Hi1 & He1 & _ & _).
+  assert (Hd1 : forall n d, In (n, d) (s_dirs s) -> dres (s_types s) m1 d).
+  { intros n d Hin. eapply dres_ext; [exact He1|]. eapply Hdres; eauto. }
+  pose proof (traverse_dirs_nodrop _ _ _ _ _ Hi1 Hd1 Hd) as ->.
+  destruct (traverse_dirs_spec _ _ _ _ _ Hi1 Hd) as (Hi2 & He2 & _ & _).
+  destruct fuel as [|fuel]; [simpl in H; discriminate|].
+  rewrite replace_and_heal_S in H. simpl in H.
+  inversion H; subst. simpl. split; [reflexivity|]. split; [reflexivity|]. split; [eapply ext_trans; eauto|]. split; [exact (proj1 Hi2)|].
+  intros o L Hik. eapply traverse_dirs_IK; [exact Hi1|exact Hd|]. eapply traverse_types_IK; [exact Hi|exact Ht|exact Hik].
 Qed.
 
 Lemma resm_same tm m x x' : mget m x' = mget m x -> resm tm m x -> resm tm m x'.
@@ -816,7 +1117,8 @@ Theorem clone_preserved fuel m s m' s' :
    (forall n o, In (n, o) (s_types s') -> is_builtin o = false -> exists t, In (n, t) (s_types s) /\ is_builtin t = false) /\
    (forall n o, In (n, o) (s_types s') -> is_builtin o = false -> tres (s_types s') m' o)) /\
   forall n t, In (n, t) (s_types s) -> is_builtin t = false ->
-    exists t', alookup n (s_types s') = Some t' /\ type_cloned m' n t t' /\ type_linked (s_types s') m' t t'.
+    exists t', alookup n (s_types s') = Some t' /\ type_cloned m' n t t' /\ type_linked (s_types s') m' t t' /\
+      forall k d ms ifs r ds, mget m t = Some (OType n k d ms ifs r ds) -> IK (s_types s') m' t' ifs.
 Proof.
   intros Hf Hb Hcl Hwf Hbi H.
   destruct (clone_owned _ _ _ _ _ Hf Hb Hcl Hwf Hbi H) as (Fown & _).
@@ -867,10 +1169,15 @@ Proof.
   set (S := fun x => mget m x <> None).
   assert (HS2 : forall x, S x -> mget m2 x = mget m x).
   { intros x Hx. unfold S in Hx. destruct (mget m x) as [v|] eqn:Hv; [|congruence]. apply P12. exact Hv. }
+  assert (Hkeys : forall k, In k (map fst (s_types s)) -> alookup k tm' <> None).
+  { intros k Hk. apply in_map_iff in Hk. destruct Hk as ([k1 o1] & <- & Hi1). simpl.
+    eapply replace_types_keeps; [exact N1| |exact Hrt]. rewrite (Hreg0 _ _ Hi1). discriminate. }
   assert (Hmain : forall mf, ext tm' m2 mf -> (forall x, S x -> mget mf x = mget m2 x) ->
+            (forall o L, IK tm' m2 o L -> IK tm' mf o L) ->
             forall n t, In (n, t) (s_types s) -> is_builtin t = false ->
-              exists t', alookup n tm' = Some t' /\ type_cloned mf n t t' /\ type_linked tm' mf t t').
-  { intros mf Hemf HSmf n t Hin Hnb.
+              exists t', alookup n tm' = Some t' /\ type_cloned mf n t t' /\ type_linked tm' mf t t' /\
+                forall k d ms ifs r ds, mget m t = Some (OType n k d ms ifs r ds) -> IK tm' mf t' ifs).
+  { intros mf Hemf HSmf Hikmf n t Hin Hnb.
     destruct (clone_entries_v n0 _ _ _ _ Hgok Hsrc Hct n t Hin Hnb) as (t' & Htu & Hc1).
     pose proof (tcopy_pres _ _ _ _ _ (g_pres _ _ _ G2) Hc1) as Hc2.
     assert (Hlk : alookup n tm' = Some t').
@@ -895,16 +1202,33 @@ Proof.
         intros a Ha. unfold oargs in Ha, Ho. rewrite (HS2 x Sx) in Ha. rewrite Ho in Ha. destruct Ha. }
       destruct k; auto; subst ms; intros x []. }
     split; [eapply (tcopy_cloned tm' m2 mf S); [exact Hemf|exact HSmf|exact St|exact Hmem|exact Hc2]|].
-    eapply (tcopy_linked tm' m2 mf S); [exact Hemf|exact HSmf|exact St|exact Hmem|exact Hc2]. }
+    split; [eapply (tcopy_linked tm' m2 mf S); [exact Hemf|exact HSmf|exact St|exact Hmem|exact Hc2]|].
+    intros k d ms ifs r ds Hgt. apply Hikmf.
+    destruct Hc2 as (k2 & d2 & ms2 & ifs2 & r2 & ds2 & ms2' & A & B & _).
+    rewrite (P12 _ _ Hgt) in A. inversion A; subst k2 d2 ms2 ifs2 r2 ds2.
+    exists n, k, d, ms2', ifs, r, ds. split; [exact B|].
+    pose proof (cl_types _ _ Hcl) as Hty. rewrite Forall_forall in Hty. specialize (Hty _ Hin Hnb).
+    unfold type_ok in Hty. rewrite Forall_forall in Hty. unfold children in Hty. simpl in Hty. rewrite Hgt in Hty.
+    assert (Hall : (forall i, In i ifs -> reg m (s_types s) i) -> Forall2 (same_name m2) ifs ifs /\ ires tm' m2 ifs).
+    { intros Hr.
+      assert (Hnm : forall i, In i ifs -> exists nm, tname m2 i = Some nm /\ alookup nm tm' <> None).
+      { intros i Hi. destruct (Hr i Hi) as (nm & Hn & Hl). exists nm. split.
+        - unfold tname in *. destruct (mget m i) as [v|] eqn:Hv; [|discriminate]. rewrite (P12 _ _ Hv). exact Hn.
+        - apply Hkeys. apply in_map_iff. exists (nm, i). split; [reflexivity|apply alookup_In; exact Hl]. }
+      split.
+      - clear - Hnm. induction ifs as [|i l IH]; constructor.
+        + destruct (Hnm i (or_introl eq_refl)) as (nm & A & _). exists nm. auto.
+        + apply IH. intros j Hj. apply Hnm. right; exact Hj.
+      - apply Forall_forall. exact Hnm. }
+    destruct k; try reflexivity.
+    - apply Hall. intros i Hi. apply Hty. apply in_or_app. left. exact Hi.
+    - apply Hall. intros i Hi. apply Hty. exact Hi. }
   pose proof (build_sub _ _ _ _ Hb Hcl Hwf Hbi Hb0) as Hsub0.
   assert (Hback : forall n1 o, In (n1, o) tm' -> is_builtin o = false -> exists t, In (n1, t) (s_types s) /\ is_builtin t = false).
   { intros n1 o Hi1 Hbo.
     destruct (replace_types_in_strict _ _ _ _ _ _ _ _ (proj1 Hwf0) Hrt Hi1) as [Hu|[Ho Hno]].
     - destruct (clone_entries_v' n0 _ _ _ _ Hgok Hsrc Hct n1 o Hu) as (o1 & Hio1 & Hbo1 & _). exists o1. auto.
     - exfalso. destruct (K1 n1 o (Hsub0 _ Ho) Hbo) as (y & Hy). exact (Hno _ Hy). }
-  assert (Hkeys : forall k, In k (map fst (s_types s)) -> alookup k tm' <> None).
-  { intros k Hk. apply in_map_iff in Hk. destruct Hk as ([k1 o1] & <- & Hi1). simpl.
-    eapply replace_types_keeps; [exact N1| |exact Hrt]. rewrite (Hreg0 _ _ Hi1). discriminate. }
   assert (Htres : forall n1 o, In (n1, o) tm' -> is_builtin o = false -> tres tm' m2 o).
   { intros n1 o Hi1 Hbo.
     destruct (replace_types_in_strict _ _ _ _ _ _ _ _ (proj1 Hwf0) Hrt Hi1) as [Hu|[Ho Hno]].
@@ -920,8 +1244,8 @@ Proof.
     inversion H; subst m' s'. simpl. rewrite Hreg3.
     split; [split; [exact Hf3|split; [eapply wf_reg_ext; eauto|split; [exact Hback|]]]|].
     { intros n1 o Hi1 Hbo. eapply tres_ext; [exact He3|]. apply (Htres n1 o Hi1 Hbo). }
-    apply (Hmain m3 He3). intros x Sx. rewrite (HS2 x Sx). unfold S in Sx. destruct (mget m x) as [v|] eqn:Hv; [|congruence].
+    apply (Hmain m3 He3); [|exact (heal_from_nodrop_IK tm' fuel m2 _ m3 s3 eq_refl (g_fresh _ _ _ G12) Hwf' Htres Hrec)]. intros x Sx. rewrite (HS2 x Sx). unfold S in Sx. destruct (mget m x) as [v|] eqn:Hv; [|congruence].
     rewrite <- Hv. apply (fr_frame _ _ _ Fown). eapply Hex; eauto.
   - inversion H; subst m' s'. simpl. split; [split; [exact (g_fresh _ _ _ G12)|split; [exact Hwf'|split; [exact Hback|exact Htres]]]|].
-    apply (Hmain m2 (ext_refl tm' m2)). auto.
+    apply (Hmain m2 (ext_refl tm' m2)); auto.
 Qed.
